@@ -422,6 +422,15 @@ def _min_equal(obs, h, f, H, F):
         return False
     e = np.asarray(F.parameter_errors, float)
     e = np.where(np.isfinite(e) & (e > 0), e, 1.0)
+    # width parameters of the peak families / the normal density enter only through their square: fits may end at +s or -s, which mirrors the
+    # corresponding rows and columns of the covariance / correlation matrix
+    if h.ndim == 2:
+        try:
+            sg = np.array([-1.0 if (nm in ("s", "g", "sigma") and np.sign(hv) * np.sign(fv) < 0) else 1.0
+                           for nm, hv, fv in zip(F.parameter_names, np.asarray(H.parameter_values, float), np.asarray(F.parameter_values, float))])
+            h = h * np.outer(sg, sg)
+        except Exception:  # noqa
+            pass
     both_nan = np.isnan(h) & np.isnan(f)
     # numerical second derivatives lose accuracy with the correlation of the parameters (C05: 3-8 % at a condition number of 3e4 of the parameter
     # correlation matrix): x3 beyond 1e3, not compared beyond 1e4
